@@ -480,6 +480,8 @@ def values_equal(st, a, b):
         if o.t.is_reflike:
             return o.z == 0
         return z3.BoolVal(False)
+    if ka == 'setv' and kb == 'setv':
+        return a.z == b.z
     if ka != kb:
         if {ka, kb} <= {'list', 'seq'}:
             pass
@@ -487,7 +489,7 @@ def values_equal(st, a, b):
             pass
         else:
             return z3.BoolVal(False)
-    if ka in ('str', 'bytes', 'opaque'):
+    if ka in ('str', 'bytes', 'opaque', 'mapv'):
         return a.z == b.z
     if ka == 'tuple':
         ia, ib = E.tuple_items(st, a), E.tuple_items(st, b)
@@ -736,7 +738,7 @@ _GLOBAL_FUNCS = ('len', 'isinstance', 'set', 'list', 'dict', 'tuple', 'sorted', 
                  'unchanged', 'index_of', 'str_index', 'subseq', 'substr', 'str_len', 'setv',
                  'union_of', 'same_elems', 'is_fresh', 'seq_map_eq', 'let', 'emp', 'char_at',
                  'is_digit_str', 'str_to_int', 'concat_seq', 'mkseq', 'is_list', 'store', 'dict_has', 'dict_get',
-                 'dict_keys', 'implies_all', 'remove_positions', 'trig')
+                 'dict_keys', 'implies_all', 'remove_positions', 'trig', 'same')
 
 
 def lookup_global(st, nm):
